@@ -47,6 +47,11 @@ chk("C14", "shadowsym", "other",
     "Placements, subsets and splits are boolean choices explored exhaustively by the engine (z3: feasibility; K1 also value equalities). Equality is byte equality of all generated files except the JSON dump. Other option/format names, deeper trees and other attribute shapes are outside the bound.",
     "symbolic execution of the real code with symbolic placement booleans (shadowsym), two-run equivalence per path", "DESIGN.md 3/C14")
 
+chk("C08", "shadowsym", "model_checking",
+    "A: util.un_camel executed symbolically for every identifier of <= 6/8 characters (each character a z3 integer within an engine-chosen class upper/lower/digit/underscore) against the documented conversion. B: 229+ expansion structures (<= 3 overloads, <= 2 trailing defaults, 0/2 template instantiations, 0/2 fortran_generic entries, library/namespace/class scope, default and explicit suffixes, one or two names per scope) through the whole real pipeline with placeholder identifiers: emitted C prototypes, Fortran specifics/generic interfaces, PyMethodDef and luaL_Reg tables against the reference count of callable signatures, pairwise distinct, generic interfaces listing exactly their name's specifics; names decomposed into templates over the placeholders (checked parametric with a second placeholder set). C: z3's sequence theory decides for every pair of emitted-name templates of a structure that they cannot be equal for any identifiers in the claimed domain.",
+    "Trusted: the harness's readers of generated headers/modules/tables; z3 (strings). Identifier domain for injectivity: [a-z]([a-z0-9]*[a-z])?, length <= 8, no underscore. Three known findings are excluded and replayed on every run.",
+    "symbolic execution of un_camel (shadowsym) + z3 sequence-theory injectivity queries over name templates extracted from real pipeline runs", "DESIGN.md 3/C08")
+
 NA = {
  "C01": "generated Fortran run-time behaviour: no Fortran front end yields anything a solver can execute; C-side kernels covered under C02/C06/C10",
  "C04": "finite structural comparison of two emitted texts with a Fortran processor's interoperability rules as oracle; nothing symbolic to decide",
